@@ -378,6 +378,27 @@ def touch_helpers(R, rule, which):
 import re as _re
 
 
+def _shape_term(t):
+    """report key of an address sum: the fields and operators it is made of, with the expression that designates the
+    object abstracted ((t->area + an)->base, area->base and a->base are all '@.base') - the same sum keeps its key when
+    the walk over the table is rewritten"""
+    def go(x):
+        if not isinstance(x, tuple):
+            return str(x)
+        if x[0] == 'f':
+            return '@.%s' % x[2]
+        if x[0] == 'cast':
+            return go(x[2])
+        if x[0] in ('+', '-', '*', '/', '%', '<<', '>>'):
+            return '(%s %s %s)' % (go(x[1]), x[0], go(x[2]))
+        if x[0] == 'i':
+            return '%s[%s]' % (go(x[1]), go(x[2]))
+        if x[0] == '&':
+            return go(x[1])
+        return _norm_term(x)
+    return go(t)
+
+
 def _norm_term(t):
     """report text of a term without the engine's path-specific numbering"""
     x = sym.fmt(t)
@@ -472,7 +493,7 @@ def wrap_free(R, rule, fn, inline=(), roots=('+',), known=None):
             flagged |= new
         nterms += 1
         for t in flagged:
-            found.setdefault(_norm_term(t), p)
+            found.setdefault(_shape_term(t), p)
     if not found:
         ck.holds(rule, fn + ':wrap', where, 'no address sum of %s can wrap around 2^32 (%d paths)' % (fn, len(ps)))
     for txt, p in sorted(found.items()):
